@@ -437,4 +437,49 @@ theorem proxy_transparent_from (s : PState Data) (last : Option Data) (seen : Li
 
 end proxy
 
+/-! ### call sites -/
+
+section callsites
+variable {Ind Data : Type} (sig : Ind → Key) (ev : Data → Ind → Fit)
+
+theorem expandAll_cons (e : CEv Ind Data) (es : List (CEv Ind Data)) :
+    expandAll (e :: es) = e.expand ++ expandAll es := by
+  simp [expandAll]
+
+/-- the call-site obligation implies the usage discipline of the proxy -/
+theorem callsites_disciplined (hne : ∀ i, (sig i).empty = false)
+    (hf : ∀ d i j, sig i = sig j → ev d i = ev d j)
+    (es : List (CEv Ind Data)) (fresh : Bool) (d : Data) (last : Option Data) (seen : List Ind)
+    (hs : CSafe fresh es) (h1 : fresh = true → last = none) (h2 : last = none ∨ last = some d) :
+    Disciplined sig ev d last seen (expandAll es) := by
+  induction es generalizing fresh d last seen with
+  | nil => simp [expandAll, Disciplined]
+  | cons e es ih =>
+    rw [expandAll_cons]
+    cases e with
+    | site s d' =>
+      obtain ⟨hc, hrest⟩ := hs
+      cases hch : s.changes <;> cases hcl : s.clears <;> simp only [CEv.expand, hch, hcl, if_true, if_false,
+        List.nil_append, List.cons_append, Disciplined, Bool.false_eq_true]
+      · exact ih fresh d last seen (by simpa [hcl] using hrest) h1 h2
+      · exact ih true d none [] (by simpa [hcl] using hrest) (fun _ => rfl) (Or.inl rfl)
+      · have hfresh : fresh = true := by
+          rcases hc hch with h | h
+          · rw [hcl] at h; cases h
+          · exact h
+        exact ih fresh d' last seen (by simpa [hcl] using hrest) h1 (Or.inl (h1 hfresh))
+      · exact ih true d' none [] (by simpa [hcl] using hrest) (fun _ => rfl) (Or.inl rfl)
+    | eval i =>
+      simp only [CEv.expand, List.cons_append, List.nil_append, Disciplined]
+      refine ⟨h2, hne i, fun j _ hj => hf d j i hj, ?_⟩
+      exact ih false d (some d) (i :: seen) hs (fun h => by cases h) (Or.inr rfl)
+    | clear =>
+      simp only [CEv.expand, List.cons_append, List.nil_append, Disciplined]
+      exact ih true d none [] hs (fun _ => rfl) (Or.inl rfl)
+    | reload =>
+      simp only [CEv.expand, List.cons_append, List.nil_append, Disciplined]
+      exact ih fresh d last seen hs h1 h2
+
+end callsites
+
 end Vita.C04
